@@ -11,14 +11,14 @@ from fractions import Fraction
 import numpy as np
 from pymatgen.core import Lattice
 
-from . import core, gem, hist, trajsc
+from . import core, gem, hist, trajsc, translate
 from .core import Outcome, PropertySpec, enc
 
 from gemdat.rdf import radial_distribution, radial_distribution_between_species  # noqa: E402
 from gemdat.transitions import Transitions, _calculate_transition_events  # noqa: E402
 
 PID = 'C11'
-MODULES = ['GProofs.Geometry', 'GProofs.C11']
+MODULES = ['GProofs.Geometry', 'GProofs.C11', 'GProofs.C11Gen']
 
 
 def gen_case(rng):
@@ -213,6 +213,7 @@ SPEC = PropertySpec(
     modules=MODULES,
     run=run,
     replay=replay,
+    gen=translate.gen_for('FormulasC11'),
     rule=('random systems: pool lattice, 1-3 floating Li + 1-3 framework atoms of O/S, 2-6 frames of dyadic coordinates, 2-4 sites '
           'with ALTERNATING labels (A,B,A,... or A,B,C,A) so that a label shift is visible, random site histories (real Transitions '
           'object), resolution in {0.25,0.5,1,0.3,0.7,1.1}, cut-off in {2,3.5,5,3.3,4} (also cut-offs that are not a multiple of the bin width), '
